@@ -18,7 +18,7 @@ import warnings
 
 from . import env
 from .peers import ScriptedPeer
-from .vloop import VLoop, Hang, Runaway
+from .vloop import VLoop, Hang, Runaway, cpu_guard
 
 HOST = "inv0"
 
@@ -242,7 +242,8 @@ def run_scenario(sc, peer_factory=None, inv_factory=None, quiesce=True) -> Run:
                     await asyncio.sleep(0)
 
             try:
-                loop.run_until_complete(main())
+                with cpu_guard():
+                    loop.run_until_complete(main())
             except Hang as h:
                 run.stop = "HANG: " + str(h)
             except Runaway as r:
@@ -331,7 +332,8 @@ def run_custom(peers: dict, coro_factory, connect_scripts=None, vtime_cap=900.0,
             await asyncio.sleep(0)
 
         try:
-            loop.run_until_complete(main())
+            with cpu_guard():
+                loop.run_until_complete(main())
         except Hang as h:
             run.stop = "HANG: " + str(h)
         except Runaway as r:
